@@ -170,7 +170,7 @@ def gen_case(rng, params, idx):
                         # class it is later mixed into inherits from its other bases
                         ext = rng.random() < 0.6
                     kind = "walk" if t == "list" else rng.choice(["leaf", "leaf", "leaf", "next"])
-                    defs.append({"mid": mid, "name": nm, "t": t, "ext": ext, "kind": kind})
+                    defs.append({"mid": mid, "name": nm, "t": t, "ext": ext, "kind": kind, "po": rng.random() < 0.15})
                     mid += 1
         classes.append({"name": name, "bases": bases, "root": kindroot, "ovldcls": ovldcls, "defs": defs,
                         "create": use_create})
@@ -188,7 +188,8 @@ def class_source(c, classes):
     for d in c["defs"]:
         if d["ext"]:
             body.append("    @extend_super")
-        body.append(f"    def {d['name']}(self, x: {d['t']}):")
+        # some definitions make the receiver and the argument positional-only: def f(self, x: T, /)
+        body.append(f"    def {d['name']}(self, x: {d['t']}{', /' if d.get('po') else ''}):")
         body.append(f"        VF_.enter({d["mid"]}, locals())")
         if d["kind"] == "walk":
             body.append(f"        return ['L{d['mid']}', self] + [recurse(e) for e in x]")
